@@ -425,7 +425,7 @@ func check(c *enum.Ctx, k kase) {
 }
 
 func run(c *enum.Ctx) {
-	c.Rule("Truncate: every (start,end) in [off-2,off+L+2]^2 for L=0..5 (thorough 6), offsets {-2,0,3}, linear/circular, dst==src, a fresh dst, a dst that already holds an earlier (longer circular / one-letter) result, a dst that is a struct copy of the source and one that was handed the source's letters from the second on, linear.Seq and linear.QSeq; Join: all length pairs 0..3 x both ends x conformations; Stitch/Compose: every list of <=2 (thorough 3) features whose interval intersects or abuts the sequence within [off-1,off+L+1], orientation forward/reverse/none/not-an-Orienter, complementing (DNAredundant) and non-complementing (Protein) alphabets, both sequence types, dst==src / fresh / previously used, L=0..4; Trim: every vector of length 0..6 (thorough 7) over (limit-e) in {-2,-1,0,1,2}/4 at offsets {0,3}; feature lists of 2^k-1, 2^k, 2^k+1 features (3..257, thorough 1025) in three fixed patterns around a 15-letter sequence; every Truncate/Join case again directly after a rejected call of the same function, every Stitch/Compose case after a rejected Stitch and a rejected Compose (an inverted feature behind two good ones) on other sequences; all positions carry distinct letters (and qualities); non-trivial = cases where the operation is expected to succeed on a non-empty result")
+	c.Rule("Truncate: every (start,end) in [off-2,off+L+2]^2 for L=0..5 (thorough 6), offsets {-2,0,3}, linear/circular, dst==src, a fresh dst, a dst that already holds an earlier (longer circular / one-letter) result, a dst that is a struct copy of the source and one that was handed the source's letters from the second on, linear.Seq and linear.QSeq; Join: all length pairs 0..3 x both ends x conformations; Stitch/Compose: every list of <=2 (thorough 3) features whose interval intersects or abuts the sequence within [off-1,off+L+1], orientation forward/reverse/none/not-an-Orienter, complementing (DNAredundant) and non-complementing (Protein) alphabets, both sequence types, dst==src / fresh / previously used, L=0..4; Trim: every vector of length 0..6 (thorough 7) over (limit-e) in {-2,-1,0,1,2}/4 at offsets {0,3}; feature lists of 2^k-1, 2^k, 2^k+1 (also 3*2^k, 10^j-1, 10^j, 10^j+1, 5*10^j) features (3..257, thorough 1025) in three fixed patterns around a 15-letter sequence; every Truncate/Join case again directly after a rejected call of the same function, every Stitch/Compose case after a rejected Stitch and a rejected Compose (an inverted feature behind two good ones) on other sequences; all positions carry distinct letters (and qualities); non-trivial = cases where the operation is expected to succeed on a non-empty result")
 	c.Assume("Compose features are at least abutting the sequence (a feature entirely outside is out of scope)", "Trim: an empty window is accepted anywhere; values are dyadic so sums are exact")
 	maxL, maxF, maxT := 5, 2, 6
 	if !c.Quick {
@@ -554,7 +554,7 @@ func run(c *enum.Ctx) {
 		rec(nil)
 		c.Merge(nt)
 	})
-	// the size ladder for feature lists: 2^k-1, 2^k, 2^k+1 features (3..257, thorough 1025) laid by three
+	// the size ladder for feature lists: 2^k-1, 2^k, 2^k+1 (also 3*2^k, 10^j-1, 10^j, 10^j+1, 5*10^j) features (3..257, thorough 1025) laid by three
 	// fixed patterns over and around a 15-letter sequence at offset 20 (many lie wholly before or behind
 	// it, some reach in from outside); Compose gets those that at least abut the sequence
 	topF := 257
